@@ -359,39 +359,28 @@ def body_fit(case):
         evals += 1
         if first is None:
             first = got
-        # equivalence of the general fit with the dedicated fit beyond the well-conditioned band,
-        # judged a posteriori: when the dedicated routine demonstrably delivers the exact
-        # least-squares solution (1e-6) on these data, the general fit with the same basis must
-        # not refuse them and must agree with it (1e-3: its 2x2/3x3 formula is measurably less
-        # accurate on clustered data - up to 1.6e-5 in calibration - so this is a gross check)
-        if kind == "general" and not asserted and ref["cstar"] is not None and not ref["null"]:
-            names = [s[0] for s in specs]
-            ded = None
-            if names == ["x2", "x", "one"]:
-                ded, dname = cf.quadratic_fitting, "quadratic_fitting"
-            elif names == ["x", "one"]:
-                ded, dname = cf.linear_fitting, "linear_fitting"
-            if ded is not None and abs(lsq.det(ref["A"])) >= F(1, 10 ** 8):
-                try:
-                    dres = ded()
-                except ZeroDivisionError:
-                    dres = None
-                cs = ref["cstar"]
-                if dres is not None:
-                    scale = max(abs(c) for c in cs)
-                    ok = scale > 0 and all(abs(F(float(dres[i])) - cs[i]) <= scale / 10 ** 6 for i in range(len(cs)))
-                    if ok:
-                        if "equivalence_checked_a_posteriori" not in labels:
-                            labels.append("equivalence_checked_a_posteriori")
-                        if isinstance(got, ZeroDivisionError):
-                            raise Violation("%s raised ZeroDivisionError(%s) although %s returns %r, the exact "
-                                            "least-squares solution to 1e-6, for the same data: the general fit "
-                                            "with this basis must equal it" % (what, got, dname, dres),
-                                            site=site, kind="general_refuses_what_dedicated_fit_solves")
-                        if any(abs(F(float(got[i])) - F(float(dres[i]))) > scale / 1000 for i in range(len(cs))):
-                            raise Violation("%s = %r but %s = %r (exact solution %r): the general fit with this "
-                                            "basis must equal it" % (what, got, dname, dres, [float(c) for c in cs]),
-                                            site=site, kind="general_differs_from_dedicated_fit")
+        # equivalence of general_fitting(x, 1) with linear_fitting beyond the a-priori well-conditioned
+        # band, judged a posteriori: both divide by the same determinant n*Sxx - Sx^2.  When the
+        # dedicated routine delivers a *non-zero* slope accurate to 1e-6 of itself, its determinant
+        # was accurate, so the general fit with the same basis must not refuse the data (seeded
+        # change C17-2b).  Only the refusal is asserted: the general routine's coefficients are
+        # measurably less accurate on clustered data (1.6e-5 in calibration), and a slope that is
+        # exactly zero says nothing about the determinant (found at VERIF_SEED=9: constant ordinates).
+        if kind == "general" and not asserted and ref["cstar"] is not None and not ref["null"] \
+                and [s_[0] for s_ in specs] == ["x", "one"] and abs(lsq.det(ref["A"])) >= F(1, 10 ** 8):
+            cs = ref["cstar"]
+            try:
+                dres = cf.linear_fitting()
+            except ZeroDivisionError:
+                dres = None
+            if dres is not None and cs[0] != 0 and abs(F(float(dres[0])) - cs[0]) <= abs(cs[0]) / 10 ** 6:
+                if "equivalence_checked_a_posteriori" not in labels:
+                    labels.append("equivalence_checked_a_posteriori")
+                if isinstance(got, ZeroDivisionError):
+                    raise Violation("%s raised ZeroDivisionError(%s) although linear_fitting returns %r, whose "
+                                    "slope is the exact least-squares slope to 1e-6, for the same data: the "
+                                    "general fit with (x, 1) must equal the linear fit" % (what, got, dres),
+                                    site=site, kind="general_refuses_what_dedicated_fit_solves")
         # equivalences of the general fit
         if kind == "general" and asserted:
             names = [s[0] for s in specs]
@@ -596,6 +585,20 @@ def fit_cases(draw, kind):
             k = int(pick[-1])
             specs = draw(st.lists(st.sampled_from(pool), min_size=k, max_size=k, unique_by=lambda s: tuple(s)))
         case["basis"] = specs
+        if pick == "x1" and form != "yonly" and draw(st.booleans()):
+            # tight clusters on a dyadic grid far from the origin: outside the a-priori band, yet the
+            # float sums are exact there, the dedicated fit is accurate, and the equivalence is judged
+            # a posteriori (label equivalence_checked_a_posteriori)
+            c = draw(st.sampled_from([999.5, -999.5, 500.25, -750.0, 64.0, 321.0]))
+            h = draw(st.sampled_from([1.0 / 128, 1.0 / 256, 1.0 / 64, 1.0 / 1024]))
+            ks = draw(st.lists(st.integers(-12, 12), min_size=n, max_size=n))
+            if len(set(ks)) < 2:
+                ks[0] = ks[0] + 1
+            xs = [c + k * h for k in ks]
+            sl = draw(st.sampled_from([1.0, -2.0, 0.5, 8.0, -0.25]))
+            ys_ = [sl * (x - c) + draw(st.integers(-8, 8)) / 8.0 for x in xs]
+            case.update({"xmode": "cluster", "noise": 1, "x": xs, "y": ys_})
+            return case
     else:
         specs = SPECS[kind]
     fns = [basis_fn(s) for s in specs]
